@@ -37,6 +37,7 @@ def run(ctx):
     expl.append((dict(strategy=st, max=20, flow=True, lag=0, coarse=True), r_ops, w_ops, 0, ctx.pick(3, 12), 2))
   cachecheck.run_plan(ctx, 'C02', models, sims, expl)
   same_series_two_syntaxes(ctx)
+  listener_to_cache(ctx)
 
 
 def same_series_two_syntaxes(ctx):
@@ -81,6 +82,59 @@ def same_series_two_syntaxes(ctx):
                     'value per timestamp with an exact size: %r (size %r), expected one entry %r' % (held, cache.size, expect),
                     dict(spellings=spellings, cache=repr(held), size=cache.size, expected=repr(expect)), signature='series-split')
       break
+
+
+def listener_to_cache(ctx):
+  """datapoints on their way from a real listener into the real cache (pipeline ['write']): what the cache hands out per
+  series is strictly increasing in timestamp - lines with NaN / infinite timestamps never get that far"""
+  from twisted.internet.testing import StringTransport
+  from . import cachesys
+  mods = cachesys.Modules(ctx.scratch)
+  import carbon.protocols as protocols
+  s = mods.settings
+  s['MAX_CACHE_SIZE'] = float('inf')
+  s['CACHE_SIZE_HARD_MAX'] = float('inf')
+  s['CACHE_SIZE_LOW_WATERMARK'] = float('inf')
+  s['USE_FLOW_CONTROL'] = False
+  s['USE_WHITELIST'] = False
+  s['MIN_TIMESTAMP_RESOLUTION'] = 0
+  s['METRIC_CLIENT_IDLE_TIMEOUT'] = None
+  s['TCP_KEEPALIVE'] = False
+  s['MAX_RECEIVER_CONNECTIONS'] = float('inf')
+  rng = ctx.rng
+  base = list(mods.events.metricReceived.handlers)
+  try:
+    for st in cachesys.STRATEGIES[:ctx.pick(3, 6)]:
+      s['CACHE_WRITE_STRATEGY'] = st
+      mods.cache._Cache = None
+      proc = mods.cache.CacheFeedingProcessor()
+      cache = mods.cache.MetricCache()
+      mods.events.metricReceived.handlers[:] = base + [lambda m, dp: list(proc.process(m, dp))]
+      r = protocols.MetricLineReceiver()
+      r.makeConnection(StringTransport())
+      lines = []
+      good = {}
+      for k in range(12):
+        ts = rng.choice(['nan', 'inf', '-inf', 'NaN']) if k % 3 == 1 else str(rng.randint(1, 8))
+        lines.append('lc.m %d %s\n' % (k, ts))
+        if k % 3 != 1:
+          good[float(ts)] = float(k)
+      r.dataReceived(''.join(lines).encode('ascii'))
+      mods.state.connectedMetricReceiverProtocols.discard(r)
+      ctx.evaluations += 1
+      ctx.traces += 1
+      metric, pts = cache.drain_metric()
+      tss = [a for a, b in pts]
+      ok = metric == 'lc.m' and all(x == x and x not in (float('inf'), float('-inf')) for x in tss) and all(x < y for x, y in zip(tss, tss[1:])) \
+        and dict(pts) == good and cache.size == 0
+      if not ok:
+        ctx.violation('datapoints sent to the line listener of a cache daemon (some lines carry NaN / infinite timestamps) are not handed out as '
+                      'one batch strictly increasing in timestamp holding the last value per timestamp: %r (size afterwards %r), expected %r'
+                      % (pts, cache.size, sorted(good.items())), dict(strategy=st, lines=lines, drained=repr(pts)), signature='listener-to-cache')
+        break
+  finally:
+    mods.events.metricReceived.handlers[:] = base
+    mods.cache._Cache = None
 
 
 def replay(ctx, rp):
